@@ -40,7 +40,20 @@ def gen_ls(y0, y1):
         yield _last_event()
 
 
+_RB = {"n": 0}
+
+
 def _readback(e, **kw):
+    # every other read-back is preceded, on the same object, by reads with OTHER values of the same keywords and by a plain
+    # read: what was asked before must not colour the answer
+    _RB["n"] += 1
+    if _RB["n"] % 2 == 0:
+        for other in ({}, {k: (not v if isinstance(v, bool) else v + 7) for k, v in kw.items()}):
+            try:
+                e.get_full_date(**other)
+                e.get_date(**other)
+            except Exception:
+                pass
     try:
         yy, mm, dd, hh, mi, ss = e.get_full_date(**kw)
         return [_ii(yy), _ii(mm), _ii(dd), _ii(hh), _ii(mi)], fx(ss)
